@@ -961,3 +961,21 @@ theorem checkIds_ok (j : J) (ids got : List (Nat × Nat)) (h : checkIds j ids = 
   | .null, h | .bool _, h | .num _, h | .str _, h | .arr _, h => simp [checkIds] at h
 
 end Sod.Codec
+namespace Sod.Json
+
+/-- `get?` returns a member of the object under that key (the first one) -/
+theorem get?_mem (j : J) (k : String) (v : J) (h : j.get? k = some v) :
+    ∃ kv, j = .obj kv ∧ (k.toUTF8.toList.map (·.toNat), v) ∈ kv := by
+  match j, h with
+  | .obj kv, h =>
+    refine ⟨kv, rfl, ?_⟩
+    simp only [J.get?, Option.map_eq_some_iff] at h
+    obtain ⟨p, hp, hv⟩ := h
+    have hm := List.mem_of_find?_eq_some hp
+    have hk := List.find?_some hp
+    simp only [beq_iff_eq] at hk
+    rw [← hk, ← hv]
+    exact hm
+  | .null, h | .bool _, h | .num _, h | .str _, h | .arr _, h => simp [J.get?] at h
+
+end Sod.Json
